@@ -18,6 +18,7 @@ CHECK = dict(
             dict(name="thresholds", run="^TestVerifC20Thresholds$", quick=0, thorough=0, shards_quick=2, shards_thorough=2),
             dict(name="disabled", run="^TestVerifC20DisabledSections$", quick=0, thorough=0, shards_quick=3, shards_thorough=3),
             dict(name="validpairs", run="^TestVerifC20ValidPairs$", quick=0, thorough=0, shards_quick=6, shards_thorough=6),
+            dict(name="backendusage", run="^TestVerifC20BackendUsage$", quick=0, thorough=0),
             dict(name="protocolsets", run="^TestVerifC20ProtocolSets$", quick=0, thorough=0),
             dict(name="mutate", run="^TestVerifC20Mutate$", quick=4000, thorough=200000, shards_quick=2, shards_thorough=8),
         ]),
